@@ -97,13 +97,13 @@ type PipeEnd struct {
 
 // POp is one logged operation of an instrumented pipe end.
 type POp struct {
-	Kind         OpKind
-	N            int
-	Err          error
-	Deadline     time.Time // argument for deadline ops
-	ReadDeadline time.Time // deadlines armed when the op started (Read/Write)
+	Kind          OpKind
+	N             int
+	Err           error
+	Deadline      time.Time // argument for deadline ops
+	ReadDeadline  time.Time // deadlines armed when the op started (Read/Write)
 	WriteDeadline time.Time
-	At           time.Time
+	At            time.Time
 }
 
 // PFault injects Kind (error | timeout | eof) at operation index K.
